@@ -157,9 +157,30 @@ def run_pass_kill(res, ast):
                     return False
                 need(v, dst_removed, f"`{setname}.remove(cell)` for the destination when it is a tape cell")
             # branch targets
-            okbt = any(pm.match_expr(i_, "if self.is_target[__v_i] { " + setname + ".clear(); }") for i_ in walk_t(fn["body"], "If"))
+            # the reset at branch targets must be reached in *every* iteration (must-pass-through): it is a top-level statement of the loop body over
+            # the instruction index, and nothing before it can leave the iteration (continue / break / return)
+            okbt, why_bt = False, "no `if self.is_target[i] { pending.clear() }` at the top level of the instruction loop"
+            for lp in walk_t(fn["body"], "ForLoop"):
+                iv = lp["pat"].get("name") if lp["pat"]["t"] == "PIdent" else None
+                if iv is None:
+                    continue
+                st_ = lp["body"]["stmts"]
+                at = [k_ for k_, s_ in enumerate(st_) if s_["t"] == "ExprStmt" and s_["expr"]["t"] == "If" and
+                      pm.match_expr(s_["expr"], "if self.is_target[__v_i] { " + setname + ".clear(); }", {"__v_i": iv}) is not None]
+                if not at:
+                    continue
+                esc = []
+                for s_ in st_[:at[0]]:
+                    for n_ in walk_t(s_, "Continue", "Break", "Return", "Try"):
+                        if n_["t"] in ("Continue", "Break") and inside_inner_loop({"body": {"stmts": [s_]}}, n_):
+                            continue
+                        esc.append(n_)
+                if esc:
+                    why_bt = f"a `{esc[0]['t'].lower()}` before the branch-target reset lets an iteration skip it (src/bc.rs:{esc[0]['sp'][0]})"
+                else:
+                    okbt = True
             res.check(okbt, "PASS-KILL", f"{BC}|{fname}|branch-target", w0,
-                      "zeroing_move_detection must clear the pending set at every branch target")
+                      "zeroing_move_detection must clear the pending set at every branch target, in every iteration: " + why_bt)
         else:
             # inserts only for full overwrites
             for v, arms in cov.items():
@@ -514,6 +535,86 @@ def run_c11(res, ast, rules=("TEMPS-BY-CONSTRUCTION", "WINDOW-BY-CONSTRUCTION", 
                       "allocate_temps must push exactly one live bitmap per instruction, unconditionally")
         except Missing as m:
             res.missing("LIVE-ZIP", m)
+
+
+def run_live_outer(res, ast, rule="LIVE-OUTER"):
+    """emit_block: values created before the *enclosing* loop are left to that loop, everything else that the body used from outside is
+    kept alive to the loop's end.  The threshold of that comparison must be the loop start that was current when emit_block was entered
+    (saved before it is overwritten with this loop's own start).  Decided by a small forward flow over the statements of the loop arm:
+    the abstract value of self.current_start is `saved` (entry value) or the name it was last assigned from."""
+    import pm
+    res.rule(rule, "bc::CodeGen::emit_block saves self.current_start on entry, restores it after a nested block, and the live-range extension at a loop's "
+             "end compares creation times with that saved (enclosing-loop) start, not with the start of the loop being closed", floor=3, what="obligations")
+    try:
+        fn = ast.fn(BC, "emit_block")["node"]
+    except Missing as m:
+        res.missing(rule, m)
+        return
+    w = where(BC, fn, "emit_block")
+    body = fn["body"]
+    saves = [l for l in body["stmts"] if l["t"] == "Local" and l["pat"]["t"] == "PIdent" and l.get("init") is not None
+             and pm.match_expr(strip_paren(l["init"]), "self.current_start") is not None]
+    assigns = [a for a in walk_t(body, "Assign") if pm.match_expr(strip_paren(a["left"]), "self.current_start") is not None]
+    first_assign = min([a["sp"][0] for a in assigns], default=10 ** 9)
+    oks = len(saves) == 1 and saves[0]["sp"][0] < first_assign
+    res.check(oks, rule, f"{BC}|emit_block|save", w, "emit_block must save self.current_start into a local before anything overwrites it")
+    if not oks:
+        return
+    P = saves[0]["pat"]["name"]
+    # thresholds: comparisons `self.ranges[v].created < T` (or T > ..created)
+    cmps = []
+    for b_ in walk_t(body, "Binary"):
+        if b_["op"] in ("<", ">=", ">", "<="):
+            for side, other in (("left", "right"), ("right", "left")):
+                x = strip_paren(b_[side])
+                if x["t"] == "Field" and x["member"] == "created":
+                    cmps.append((b_, b_[other]))
+    par = parents(fn)
+
+    def cs_at(node):
+        """abstract value of self.current_start where `node` is evaluated: walk the enclosing statement lists from the function entry"""
+        # collect the chain of (block, index) from the root to node
+        chain = []
+        cur = node
+        while id(cur) in par:
+            pn, k = par[id(cur)]
+            if pn["t"] == "Block":
+                idx = next((j for j, s_ in enumerate(pn["stmts"]) if s_ is cur), None)
+                if idx is not None:
+                    chain.append((pn, idx))
+            cur = pn
+        chain.reverse()
+        val = "saved"
+        for blk, idx in chain:
+            for s_ in blk["stmts"][:idx]:
+                for a_ in walk_t(s_, "Assign"):
+                    if pm.match_expr(strip_paren(a_["left"]), "self.current_start") is not None:
+                        # an assignment inside a conditional sibling: the value is one of several -> keep the last assigned name but mark as maybe
+                        r_ = path_name(strip_paren(a_["right"]))
+                        cond = a_ not in [x.get("expr") for x in blk["stmts"][:idx] if x["t"] == "ExprStmt"]
+                        new = "saved" if r_ == P else (r_ or "?")
+                        val = new if not cond else (val if new == val else f"{val}|{new}")
+        return val
+    okc = bool(cmps)
+    why = "no comparison of a creation time with a loop start found in emit_block"
+    for b_, t_ in cmps:
+        t_ = strip_paren(t_)
+        if path_name(t_) == P:
+            continue
+        if pm.match_expr(t_, "self.current_start") is not None:
+            v_ = cs_at(b_)
+            if v_ == "saved":
+                continue
+            okc, why = False, f"the threshold `self.current_start` holds `{v_}` there (this loop's own start), not the saved start of the enclosing loop"
+        else:
+            okc, why = False, f"the threshold is `{ast.src1(BC, t_)}`, not the start of the enclosing loop saved in `{P}`"
+    res.check(okc, rule, f"{BC}|emit_block|threshold", where(BC, cmps[0][0], "emit_block") if cmps else w,
+              "the live-range extension at the end of a loop must leave alone exactly the values created before the enclosing loop's start: " + why)
+    # restore after the nested block, on the path that changed it
+    restores = [a for a in assigns if path_name(strip_paren(a["right"])) == P]
+    sets = [a for a in assigns if path_name(strip_paren(a["right"])) != P]
+    okr = bool(restores) and all(any(r_["sp"][0] > s_["sp"][0] for r_ in restores) for s_ in sets)
+    res.check(okr, rule, f"{BC}|emit_block|restore", w, f"self.current_start must be restored from `{P}` after the nested block")
 
 
 def inside_inner_loop(outer, node):
